@@ -75,7 +75,7 @@ def clone(nodes):
 
 OIDS = {"ecPublicKey": bytes.fromhex("2a8648ce3d0201"), "prime-field": bytes.fromhex("2a8648ce3d0101"), "char2-field": bytes.fromhex("2a8648ce3d0102"),
         "prime256v1": bytes.fromhex("2a8648ce3d030107"), "secp112r1": bytes.fromhex("2b81040006"), "secp384r1": bytes.fromhex("2b81040022"),
-        "ecDH": bytes.fromhex("2b8104010c"), "rsaEncryption": bytes.fromhex("2a864886f70d010101"), "Ed25519": bytes.fromhex("2b6570"),
+        "ecDH": bytes.fromhex("2b8104010c"), "rsaEncryption": bytes.fromhex("2a864886f70d010101"), "Ed25519": bytes.fromhex("2b6570"), "Ed448": bytes.fromhex("2b6571"),
         "unknown": bytes.fromhex("2a0304")}
 INTS = {"zero": b"\x00", "one": b"\x01", "two": b"\x02", "minus-one": b"\xff", "negative": b"\x80\x00", "empty": b"", "non-minimal-one": b"\x00\x01",
         "max-positive": b"\x7f" + b"\xff" * 15, "huge": b"\x7f" + b"\xff" * 299, "128": b"\x00\x80"}
